@@ -1,6 +1,6 @@
 (* C11 — property theorems only.  Each is closed by `exact` of a lemma of C11_Proofs.v / C11_LoudsProofs.v. *)
 From Coq Require Import List NArith Bool.
-From Dae Require Import C11_Spec C11_Model C11_Louds C11_Proofs C11_LoudsProofs.
+From Dae Require Import C11_Spec C11_Model C11_Louds C11_Proofs C11_LoudsProofs C11_BitlistProofs C11_Layer3.
 From Dae.gen Require Import C11_Extracted.
 Import ListNotations.
 Open Scope N_scope.
@@ -96,20 +96,67 @@ Example C11_tree_nonvacuous :
   = [true; false; true; true; false; false].
 Proof. exact tree_nonvacuous. Qed.
 
-(* Layer 3, second half: OPEN obligations (stated, not proved, nothing admitted; tied to the code only by
-   the differential runs of every check: stored words / labels / rank and select samples and every
-   HasPrefix answer of the real trie are compared with these functions).
-   (a) the LOUDS numbering: navigating the label bitmap with rank/select visits the tree of [kids]; *)
-Definition C11_louds_correct_open : Prop :=
-  forall chars keys w L, NoDup chars -> (length chars <= 256)%nat -> keys <> [] ->
-    l_new chars keys = Some L -> l_has chars L w = t_walk keys w.
-(* (b) the packed representation (64-bit words, rank samples per word, select samples per 64 ones, all
-       held in CompactBitLists) answers like the logical one; *)
+(* Layer 3, LOUDS numbering (proved): for every alphabet without repetition, every key list and every
+   word, the structure NewTrie builds — labels in BFS order, unary-coded label bitmap, leaf flags —
+   navigated as HasPrefix does (scan the node's labels, child = rank0, its first label = select1 + 1)
+   answers exactly "some key is a prefix of the word".  Logical level: plain lists, naive rank/select. *)
+Theorem C11_louds_correct :
+  forall chars keys w L, NoDup chars -> (length chars <= 256)%nat ->
+    l_new chars keys = Some L -> l_has chars L w = has_prefix keys w.
+Proof. exact louds_has_prefix. Qed.
+Print Assumptions C11_louds_correct.
+
+Example C11_louds_nonvacuous :
+  match l_new [48;49] [[48]; [48;49]; [49;49;48]; [48]] with
+  | Some L => map (l_has [48;49] L) [[48;49;49]; [49]; [49;49]; [49;49;48;49]; []; [49;50]]
+  | None => []
+  end = [true; false; false; true; false; false].
+Proof. exact louds_has_prefix_nonvacuous. Qed.
+
+(* CompactBitList (16-bit storage units, any unit width 1..64, any index, any buffer).
+   Full statement as first posed — Get after Set returns the value and every other unit is untouched,
+   for ANY buffer of 16-bit words: *)
+Definition C11_compact_bitlist_get_set_full : Prop :=
+  forall m i v m', 1 <= c_unit m <= 64 -> Forall (fun x => x < 65536) (c_buf m) -> v < 2 ^ c_unit m ->
+    cbl_set m i v = Some m' ->
+    cbl_get m' i = v /\ (forall j, j <> i -> cbl_get m' j = cbl_get m j)
+    /\ c_unit m' = c_unit m /\ Forall (fun x => x < 65536) (c_buf m').
+(* It is false of the faithful model, but only in states no sequence of Set/Append can produce: a buffer
+   with stale bits after its last whole unit (unit 3, buffer [0x8000]: unit 5 straddles the end and reads 0;
+   after Set 6 the buffer has grown and unit 5 reads 1). *)
+Theorem C11_compact_bitlist_get_set_refuted : ~ C11_compact_bitlist_get_set_full.
+Proof. exact compact_bitlist_get_set_as_stated_false. Qed.
+Print Assumptions C11_compact_bitlist_get_set_refuted.
+
+(* Proved: the same law for every buffer whose bits beyond the last whole unit are zero ... *)
+Theorem C11_compact_bitlist_get_set_partial :
+  forall m i v m', 1 <= c_unit m <= 64 -> Forall (fun x => x < 65536) (c_buf m) -> tail_clean m ->
+    v < 2 ^ c_unit m -> cbl_set m i v = Some m' ->
+    cbl_get m' i = v /\ (forall j, j <> i -> cbl_get m' j = cbl_get m j)
+    /\ c_unit m' = c_unit m /\ Forall (fun x => x < 65536) (c_buf m') /\ tail_clean m'.
+Proof. exact compact_bitlist_get_set. Qed.
+Print Assumptions C11_compact_bitlist_get_set_partial.
+
+(* ... which is an invariant of every list reachable from NewCompactBitList by Set / Append, so the law
+   holds along every history the code can produce. *)
+Theorem C11_compact_bitlist_reachable :
+  (forall u, 1 <= u <= 64 -> cbl_inv (cbl_new u))
+  /\ (forall m i v m', cbl_inv m -> cbl_set m i v = Some m' ->
+        cbl_inv m' /\ cbl_get m' i = v /\ forall j, j <> i -> cbl_get m' j = cbl_get m j).
+Proof. exact bitlist_reachable_get_set. Qed.
+Print Assumptions C11_compact_bitlist_reachable.
+
+Example C11_compact_bitlist_nonvacuous :
+  match cbl_set (cbl_of_list 6 [63; 1; 42]) 5 21 with
+  | Some m => map (cbl_get m) [0; 1; 2; 3; 5; 6]
+  | None => []
+  end = [63; 1; 42; 0; 21; 0].
+Proof. exact bitlist_nonvacuous. Qed.
+
+(* OPEN obligation (stated, not proved, nothing admitted; tied to the code by the differential runs of
+   every check: stored words / labels / rank and select samples and every HasPrefix answer of the real
+   trie are compared with these functions): the packed representation (64-bit words, rank samples per
+   word, select samples per 64 ones, all held in CompactBitLists) answers like the logical one. *)
 Definition C11_packed_correct_open : Prop :=
   forall chars keys w L, NoDup chars -> (length chars <= 256)%nat -> keys <> [] ->
     l_new chars keys = Some L -> p_has chars (pack_louds chars L) w = l_has chars L w.
-(* (c) CompactBitList: Get after Set returns the value, other units are untouched, for every unit width. *)
-Definition C11_compact_bitlist_get_set_open : Prop :=
-  forall m i v m', 1 <= c_unit m <= 64 -> Forall (fun x => x < 65536) (c_buf m) -> v < 2 ^ c_unit m ->
-    cbl_set m i v = Some m' ->
-    cbl_get m' i = v /\ forall j, j <> i -> cbl_get m' j = cbl_get m j.
